@@ -2,7 +2,7 @@
 
 PARTIAL = 'PARTIAL: '
 
-REG = {
+REG_PENDING = {
  'C13': dict(
     text='Lean 4 theorems over a model of sequence_alignment.py: the rolling-row DP equals the minimum cost over ALL '
          'explicit alignments (every pair of sequences, every cost triple, no size bound); returned alignments project to '
@@ -14,4 +14,5 @@ REG = {
     ref='§5-C13'),
 }
 
+REG = {}
 NOT_YET = {}
